@@ -287,7 +287,12 @@ class MessageManager(interfaces.TokenInterface, interfaces.MessageManager):
 
         # first iteration is sure to happen, others happen only if the enqueued
         # messages were NONs
-        while not any(r == remote for r, mid in self._active_exchanges.keys()):
+        #
+        # the backlog can vanish during the iteration when sending fails
+        # synchronously and dispatch_error cleans up everything for that remote
+        while remote in self._backlogs and not any(
+            r == remote for r, mid in self._active_exchanges.keys()
+        ):
             if self._backlogs[remote] != []:
                 next_message, messageerror_monitor = self._backlogs[remote].pop(0)
                 self._send_initially(next_message, messageerror_monitor)
@@ -327,7 +332,6 @@ class MessageManager(interfaces.TokenInterface, interfaces.MessageManager):
 
         if retransmission_counter < message.transport_tuning.MAX_RETRANSMIT:
             self.log.info("Retransmission, Message ID: %d.", message.mid)
-            self._send_via_transport(message)
             retransmission_counter += 1
             timeout *= 2
 
@@ -335,6 +339,11 @@ class MessageManager(interfaces.TokenInterface, interfaces.MessageManager):
                 message, timeout, retransmission_counter
             )
             self._active_exchanges[key] = (messageerror_monitor, next_retransmission)
+            # Sending only after the exchange is registered again (as in
+            # _send_initially): if the transport reports an error right
+            # inside the send call, dispatch_error needs to find the exchange
+            # to cancel it along with the rest of that remote's state.
+            self._send_via_transport(message)
         else:
             self.log.info("Exchange timed out trying to transmit %s", message)
             del self._backlogs[message.remote]
